@@ -166,8 +166,8 @@ COMPOUND = ("+=", "-=", "*=", "/=", "%=", "&=", "|=", "^=", "<<=", ">>=")
 def compile_and_scan_diff(ctx, cases, broken):
     """cases: [(name, src)]. Compares, for every source text, the token stream (SCAN) and the compile result (C: accepted, or the
     full list of located messages) of the implementation with those of the reference scanner/parser.  Skipped for the compile
-    comparison only: sources with a compound assignment (ledger F24) and results that mention attributes (#[a, b] lives in a
-    randomly seeded hash map in the implementation, so which unsupported attribute is reported first is not determined)."""
+    comparison only: sources with a compound assignment (ledger F24).  (Results that mention attributes used to be skipped as well:
+    `#[a, b]` lived in a randomly seeded hash map, so which unsupported attribute was reported first changed from run to run - F47, fixed.)"""
     if not available():
         return {"failures": [], "scan_compared": 0, "compile_compared": 0}
     lines = [vlib.case_line("d%d" % i, ["SCAN:" + vlib.hx(src), "C:" + vlib.hx(src)]) for i, (_, src) in enumerate(cases)]
@@ -198,8 +198,6 @@ def compile_and_scan_diff(ctx, cases, broken):
         b = (ss[1].get("status"), tuple(ss[1].get("messages") or []))
         if a[0] not in ("ok", "err") or b[0] not in ("ok", "err"):
             continue            # panics / hangs of the implementation are reported by the caller; timeouts of (S) are inconclusive
-        if any("attribute" in m for m in a[1] + b[1]):
-            continue
         n_comp += 1
         if a != b:
             failures.append({"what": "the compiler and the reference parser disagree: %s / %s" % (str(a)[:300], str(b)[:300]), "name": name, "program": src[:3000],
